@@ -15,7 +15,11 @@ Specification: specs/Formulations.tla (+ MatC17.tla).
      solved by an MDA with tolerance 1e-14).  Every REJECT of IDF must raise.
      Also compared: the input masks (get_x_names_of_disc / get_x_mask_x_swap_order / mask / unmask), the start
      point of IDF(start_at_equilibrium=True), and the design-variable sets of BiLevel and of its sub-scenarios.
-     Two deliberately false claims must be refuted by TLC (the clauses are not vacuous).
+     ResultsAreValues: within a case ALL points are evaluated first (values and Jacobians of every function, then the
+     first point again), every returned array is kept as returned, and only afterwards is each kept array compared
+     with the record of its own point (an array that was right when returned and is wrong later = aliasing of an
+     internal buffer); on even seeds the disciplines that produce no coupling are quadratic so that the Jacobians
+     depend on the point.  Two deliberately false claims must be refuted by TLC (the clauses are not vacuous).
   3. "reaches the same optimum": on the quadratic instances MDOScenario + SLSQP with MDF and IDF must end at the
      optimum known to the specification (1e-6).
 Python only transports values: which MDA class / Jacobian storage / linearity declaration is used for a case
@@ -31,7 +35,7 @@ from ..core import Check, MachineryError, main
 from . import c17_disc
 
 INVS = ["WellFormed", "DyadicBounds", "SpacesExact", "RejectExact", "MasksCover", "SameValues", "ConsistencyVanishes",
-        "ConsistentDerivatives", "EquilibriumConsistent", "DOptAgrees", "OptimumKnown"]
+        "ConsistentDerivatives", "EquilibriumConsistent", "DOptAgrees", "ResultsAreValues", "OptimumKnown"]
 ALL_TOPOS = ["pair", "pairf", "weak", "two", "cycle3", "tail", "self", "chain", "solo", "solou", "solo0", "chain0"]
 MDA_TOL = 1e-14
 TOL_MDF = 1e-9
@@ -134,7 +138,7 @@ def run_spec(ck: Check, tag, **kw):
         if v[0] == "INST":
             insts[tuple(v[1])] = parse_inst(v[1], v[2])
         elif v[0] == "CASE":
-            cases.append({"key": tuple(v[1]), "form": v[2], "G": list(_seq(v[3])), "res": v[4]})
+            cases.append({"key": tuple(v[1]), "form": v[2], "G": list(_seq(v[3])), "res": v[4], "jacvaries": bool(v[5])})
         elif v[0] == "REJECT":
             rejects.append({"key": tuple(v[1]), "F": v[2], "gsv": v[3], "G": list(_seq(v[4]))})
     if not insts or not cases:
@@ -318,40 +322,63 @@ def replay_case(ck: Check, rng, inst, case, mda=None):
                                  dict(desc, discipline=d + 1, spec_idx=want_idx, unmask=back.tolist(), mask=fwd.tolist()))
                     return False
     exact = F != "MDF"
-    good = True
     if gsv != "full":
         pts = pts[:1]  # the functions do not depend on the variant of the user space: one point is enough there
-    for k, pt in enumerate(pts):
-        x = np.concatenate([_vec(pt["x"][v]) for v in names]) if names else np.zeros(0)
+    # ---- ResultsAreValues + SameValues / ConsistencyVanishes / ConsistentDerivatives.
+    # History: every point of the case is evaluated FIRST (values and Jacobians of every function), the first point
+    # once more at the end; every returned object is KEPT as returned (no copy) next to a snapshot taken at once;
+    # only then is each kept array compared with the record of the specification for ITS point.
+    order = list(range(len(pts))) + [0]
+    xs = [np.concatenate([_vec(pt["x"][v]) for v in names]) if names else np.zeros(0) for pt in pts]
+    kept = []  # (step, point, label, what, returned object, snapshot, expected)
+    for step, k in enumerate(order):
+        pt = pts[k]
         fns = [("objective", pb.objective, pt["obj"])]
         fns += [(f"consistency[{j}]" if j < ncc else f"constraint[{j - ncc}]", pb.constraints[j], fr)
                 for j, fr in enumerate(_seq(pt["cons"]))]
-        bad = []
         for label, fn, fr in fns:
             ev, ej = _expected_fn(fr, names, sizes)
             psig = dict(sig, function=label.split("[")[0])
-            pdesc = dict(desc, point=k, x={v: list(_seq(pt["x"][v])) for v in names}, design_variables=names)
-            okv, gv = guard(ck, "Evaluate", dict(psig, what="value"), pdesc,
-                            lambda f=fn: np.atleast_1d(np.asarray(f.evaluate(x.copy()), dtype=float)))
-            okj, gj = guard(ck, "Evaluate", dict(psig, what="jac"), pdesc,
-                            lambda f=fn: np.atleast_2d(np.asarray(_dense(f.jac(x.copy())), dtype=float)))
+            pdesc = dict(desc, point=k, step=step, x={v: list(_seq(pt["x"][v])) for v in names}, design_variables=names)
+            okv, gv = guard(ck, "Evaluate", dict(psig, what="value"), pdesc, lambda f=fn, x=xs[k]: f.evaluate(x.copy()))
+            okj, gj = guard(ck, "Evaluate", dict(psig, what="jac"), pdesc, lambda f=fn, x=xs[k]: f.jac(x.copy()))
             if not (okv and okj):
                 return False
+            kept.append((step, k, label, "value", gv, _as_array(gv, 1).copy(), ev))
+            kept.append((step, k, label, "jacobian", gj, _as_array(gj, 2).copy(), ej))
             ck.extra["function_values_compared"] = ck.extra.get("function_values_compared", 0) + 1
-            if gv.shape != ev.shape or not _same(gv, ev, exact):
-                bad.append({"function": label, "what": "value", "impl": gv.tolist(), "spec": ev.tolist()})
-            if gj.shape != ej.shape or not _same(gj, ej, exact):
-                bad.append({"function": label, "what": "jacobian", "impl": gj.tolist(), "spec": ej.tolist()})
-        if bad:
-            good = False
-            kinds = {b["function"].split("[")[0] + ":" + b["what"] for b in bad}
-            clause = "ConsistencyVanishes" if kinds <= {"consistency:value"} else \
-                     "ConsistentDerivatives" if all(b["what"] == "jacobian" for b in bad) else "SameValues"
-            ck.violation(clause, dict(sig, wrong=sorted(kinds)),
-                         dict(desc, point=k, x={v: list(_seq(pt["x"][v])) for v in names}, design_variables=names,
-                              wrong=bad[:6], n_wrong=len(bad)))
-            break
-    return good
+    bad, stale = [], []
+    for step, k, label, what, obj, snap, exp in kept:
+        now = _as_array(obj, 1 if what == "value" else 2)
+        if snap.shape != exp.shape or not _same(snap, exp, exact):
+            bad.append({"function": label, "what": what, "point": k, "step": step, "impl": snap.tolist(), "spec": exp.tolist()})
+        elif now.shape != exp.shape or not _same(now, exp, exact):
+            stale.append({"function": label, "what": what, "point": k, "step": step, "returned_then": snap.tolist(),
+                          "same_object_after_the_later_evaluations": now.tolist(), "spec": exp.tolist()})
+    ck.extra["results_kept_over_later_evaluations"] = ck.extra.get("results_kept_over_later_evaluations", 0) + len(kept)
+    if len(pts) > 1 and F in ("MDF", "DOPT") and case.get("jacvaries"):
+        ck.extra["cases_with_point_dependent_jacobians_kept"] = ck.extra.get("cases_with_point_dependent_jacobians_kept", 0) + 1
+    xdesc = {"points": [{v: list(_seq(pt["x"][v])) for v in names} for pt in pts], "evaluation_order": order,
+             "design_variables": names}
+    if bad:
+        kinds = {b["function"].split("[")[0] + ":" + b["what"] for b in bad}
+        clause = "ConsistencyVanishes" if kinds <= {"consistency:value"} else \
+                 "ConsistentDerivatives" if all(b["what"] == "jacobian" for b in bad) else "SameValues"
+        ck.violation(clause, dict(sig, wrong=sorted(kinds)), dict(desc, **xdesc, wrong=bad[:6], n_wrong=len(bad)))
+        return False
+    if stale:
+        kinds = {b["function"].split("[")[0] + ":" + b["what"] for b in stale}
+        ck.violation("ResultsAreValues", dict(sig, wrong=sorted(kinds)),
+                     dict(desc, **xdesc, wrong=stale[:6], n_wrong=len(stale),
+                          note="the array returned for a point changed when a later point was evaluated"))
+        return False
+    return True
+
+
+def _as_array(obj, ndim):
+    """View (not a copy, when the object is a float ndarray) of a returned value / Jacobian as a 1-D / 2-D array."""
+    a = np.asarray(_dense(obj), dtype=float)
+    return np.atleast_1d(a) if ndim == 1 else np.atleast_2d(a)
 
 
 def replay_equilibrium(ck: Check, rng, inst, case):
@@ -402,7 +429,7 @@ def _dense(m):
 def _same(a, b, exact):
     if exact:
         return bool(np.array_equal(a, b))
-    return bool(np.allclose(a, b, rtol=0.0, atol=TOL_MDF))
+    return bool(np.allclose(a, b, rtol=TOL_MDF, atol=TOL_MDF))
 
 
 def replay_reject(ck: Check, inst, rj):
@@ -507,6 +534,11 @@ def run(ck: Check):
             ck.traces += 1
             ck.extra["equilibrium_starts_replayed"] = ck.extra.get("equilibrium_starts_replayed", 0) + 1
     ck.extra["cases_replayed"] = len(cases)
+    # (vacuity is a property of what the specification printed, not of how far the replay of a case went)
+    ck.extra["cases_with_point_dependent_jacobians"] = sum(
+        1 for c in cases if c["form"]["F"] in ("MDF", "DOPT") and c["form"]["gsv"] == "full" and c["jacvaries"])
+    if ck.extra["cases_with_point_dependent_jacobians"] < 10:
+        raise MachineryError("fewer than 10 MDF/DOPT cases with point-dependent Jacobians: ResultsAreValues would be vacuous")
     ck.extra["cases_by_formulation"] = {f: sum(1 for c in cases if c["form"]["F"] == f) for f in ("MDF", "IDF", "DOPT", "BILEVEL")}
     if not all(ck.extra["cases_by_formulation"].values()):
         raise MachineryError(f"a formulation was never built: {ck.extra['cases_by_formulation']}")
@@ -549,8 +581,9 @@ def run(ck: Check):
     ck.exhaustive = True  # every printed case/reject of the bounded model is replayed (EmitMod = 1)
     ck.assumptions += [
         "exact-arithmetic slice: affine disciplines with integer blocks (entries -2..2), sizes 1..2, I - B unimodular, "
-        "dyadic bounds; the quadratic ('sq') discipline only produces the objective of the two optimum instances",
-        f"MDF is built with an MDA tolerance of {MDA_TOL} and compared to 1e-9; fixed-point MDAs only on nilpotent "
+        "dyadic bounds; quadratic ('sq') disciplines never produce a coupling (post-processing disciplines on even seeds, "
+        "the objective of the two optimum instances)",
+        f"MDF is built with an MDA tolerance of {MDA_TOL} and compared to 1e-9 (absolute + relative); fixed-point MDAs only on nilpotent "
         "coupling operators (the specification prints the admissible solver classes)",
         "IDF is allowed to keep or to drop a user variable that no discipline reads (the property does not say)",
         "DisciplinaryOpt is only defined by the specification when the listing of the disciplines is an execution order",
